@@ -3,6 +3,7 @@
 package cases
 
 import (
+	"encoding/json"
 	"errors"
 	"sync"
 )
@@ -239,3 +240,102 @@ func ToPrefix(kind string) string {
 }
 
 func lower(s string) string { return s }
+
+// ---- E1: a table-resident pointer handed out of the critical section ----
+
+func (s *Store) lookup(k string) *Obj {
+	s.mu.RLock()
+	defer s.mu.RUnlock()
+	return s.m[k]
+}
+
+func (s *Store) BadEscape(k string) string {
+	o := s.lookup(k)
+	if o == nil {
+		return ""
+	}
+	return o.Key
+}
+
+// ---- E3b: pointers a JSON null leaves nil ----
+
+type Item struct {
+	Name string
+	Sub  *Item
+}
+
+func BadDecodeElems(data []byte) (string, error) {
+	var items []*Item
+	if err := json.Unmarshal(data, &items); err != nil {
+		return "", err
+	}
+	return joinNames(items), nil
+}
+
+func GoodDecodeElems(data []byte) (string, error) {
+	var items []*Item
+	if err := json.Unmarshal(data, &items); err != nil {
+		return "", err
+	}
+	for i := range items {
+		if items[i] == nil {
+			return "", errors.New("null item")
+		}
+	}
+	return joinNames2(items), nil
+}
+
+func joinNames(items []*Item) string {
+	s := ""
+	for _, it := range items {
+		s += it.Name
+	}
+	return s
+}
+
+func joinNames2(items []*Item) string {
+	s := ""
+	for _, it := range items {
+		s += it.Name
+	}
+	return s
+}
+
+func BadDecodePtr(data []byte) string {
+	it := new(Item)
+	_ = json.Unmarshal(data, &it)
+	return it.Name
+}
+
+func GoodDecodePtr(data []byte) string {
+	it := new(Item)
+	_ = json.Unmarshal(data, it)
+	if it.Sub != nil {
+		return it.Sub.Name
+	}
+	return it.Name
+}
+
+func BadDecodeField(data []byte) string {
+	it := new(Item)
+	_ = json.Unmarshal(data, it)
+	return it.Sub.Name
+}
+
+// ---- stepped index ----
+
+func BadStep(s []int, j int) int {
+	if j == len(s) {
+		return 0
+	}
+	j++
+	return s[j]
+}
+
+func GoodStep(s []int, j int) int {
+	j++
+	if j == len(s) {
+		return 0
+	}
+	return s[j]
+}
